@@ -175,54 +175,62 @@ def setCode (code : Bytes) : EM Bool := do
   else pure true
 
 /-- `runFirst`: returns whether to go on with the VM -/
+def runFirstBody (env : Env) (cfg : Cfg) (fn : Nat → Option Bytes → Option Bytes → ExtResult) : EM Bool := do
+  let e ← get
+  -- ca.Push(); st.Down("_first")
+  let firstSym : Bytes := [95, 102, 105, 114, 115, 116]   -- "_first"
+  match e.vm.st.down firstSym with
+  | .panic p => fun e => (.panic p, e)
+  | .err k => fail k
+  | .ok st' => do
+    modify fun e => { e with vm := { e.vm with st := st', ca := e.vm.ca.push } }
+    -- a private VM over the same state and cache, with a resource that only knows `_first`
+    let env' : Env := { env with
+      ext := fun n sym input lang => if sym = firstSym then some (fn n input lang) else none,
+      code := fun _ _ => some [] }
+    let e ← get
+    let pvm : VmSt := { e.vm with pg := { menu := Menu.new }, sep := [0x3a] }
+    let code := newLine Facts.opLOAD [firstSym] (some [0]) none ++ newLine Facts.opHALT [] none none
+    let (r, pvm') := runLoop env' cfg.fuel (langOfEng e) code pvm
+    modify fun e => { e with vm := { e.vm with st := pvm'.st, ca := pvm'.ca, ghost := pvm'.ghost } }
+    -- the deferred calls, in LIFO order: ResetFlag(DIRTY), ResetFlag(TERMINATE), st.Up(), ca.Pop()
+    let finish : EM Unit := do
+      let _ ← vm (resetFlagM Facts.dirtyFlag)
+      let _ ← vm (resetFlagM Facts.terminateFlag)
+      let e ← get
+      match e.vm.st.up with
+      | .ok (_, st') => modify fun e => { e with vm := { e.vm with st := st' } }
+      | _ => pure ()
+      modify fun e => { e with vm := { e.vm with ca := e.vm.ca.pop.1 } }
+    match r with
+    | .panic p => fun e => (.panic p, e)
+    | .err k m => do
+      finish
+      fail k m
+    | .ok b => do
+      if b.length > 0 then do
+        modify fun e => { e with invalid := true }
+        finish
+        fail "first-remaining-code"
+      else do
+        let t ← vm (matchFlagM Facts.terminateFlag true)
+        if t then
+          modify fun e =>
+            let (v, ca') := e.vm.ca.last
+            { e with execd := true, exit := v, vm := { e.vm with ca := ca' } }
+        finish
+        pure (!t)
+
 def runFirst (env : Env) (cfg : Cfg) : EM Bool := do
   match env.first with
   | none => pure true
   | some fn => do
-    let e ← get
-    -- ca.Push(); st.Down("_first")
-    let firstSym : Bytes := [95, 102, 105, 114, 115, 116]   -- "_first"
-    match e.vm.st.down firstSym with
-    | .panic p => fun e => (.panic p, e)
-    | .err k => fail k
-    | .ok st' => do
-      modify fun e => { e with vm := { e.vm with st := st', ca := e.vm.ca.push } }
-      -- a private VM over the same state and cache, with a resource that only knows `_first`
-      let env' : Env := { env with
-        ext := fun n sym input lang => if sym = firstSym then some (fn n input lang) else none,
-        code := fun _ _ => some [] }
-      let e ← get
-      let pvm : VmSt := { e.vm with pg := { menu := Menu.new }, sep := [0x3a] }
-      let code := newLine Facts.opLOAD [firstSym] (some [0]) none ++ newLine Facts.opHALT [] none none
-      let (r, pvm') := runLoop env' cfg.fuel (langOfEng e) code pvm
-      modify fun e => { e with vm := { e.vm with st := pvm'.st, ca := pvm'.ca, ghost := pvm'.ghost } }
-      -- the deferred calls, in LIFO order: ResetFlag(DIRTY), ResetFlag(TERMINATE), st.Up(), ca.Pop()
-      let finish : EM Unit := do
-        let _ ← vm (resetFlagM Facts.dirtyFlag)
-        let _ ← vm (resetFlagM Facts.terminateFlag)
-        let e ← get
-        match e.vm.st.up with
-        | .ok (_, st') => modify fun e => { e with vm := { e.vm with st := st' } }
-        | _ => pure ()
-        modify fun e => { e with vm := { e.vm with ca := e.vm.ca.pop.1 } }
-      match r with
-      | .panic p => fun e => (.panic p, e)
-      | .err k m => do
-        finish
-        fail k m
-      | .ok b => do
-        if b.length > 0 then do
-          modify fun e => { e with invalid := true }
-          finish
-          fail "first-remaining-code"
-        else do
-          let t ← vm (matchFlagM Facts.terminateFlag true)
-          if t then
-            modify fun e =>
-              let (v, ca') := e.vm.ca.last
-              { e with execd := true, exit := v, vm := { e.vm with ca := ca' } }
-          finish
-          pure (!t)
+    -- a session that is already blocked: the pre-VM check does not run and there is nothing to output
+    let t0 ← vm (matchFlagM Facts.terminateFlag true)
+    if t0 then do
+      modify fun e => { e with execd := true }
+      pure false
+    else runFirstBody env cfg fn
 
 /-- `init(ctx, input)` (with `prepare`): returns cont -/
 def engInit (env : Env) (cfg : Cfg) (input : Bytes) : EM Bool := do
